@@ -480,6 +480,38 @@ pub fn wrap_term(e: &Expr, ty: &Ty, free: &[(String, Ty)], extra_fns: &[FnDef]) 
     Program { items }
 }
 
+/// Replace every free variable of `free` that occurs exactly once in `e` (and is not re-bound anywhere in `e`) by
+/// the direct expression `witness::<its witness name>`. Returns the new term, the free variables that still need
+/// an anchored `let`, and the number of inlined witnesses. (Witness expressions are legal anywhere inside `main`,
+/// which is where wrapped terms live.)
+pub fn inline_single_use_witnesses(e: &Expr, free: &[(String, Ty)]) -> (Expr, Vec<(String, Ty)>, usize) {
+    let mut bound = BTreeSet::new();
+    bound_names(e, &mut bound);
+    let mut out = e.clone();
+    let mut rest = vec![];
+    let mut inlined = 0;
+    for (n, t) in free {
+        let mut count = 0;
+        crate::mutate::walk_expr(&mut out, &mut |x| {
+            if matches!(x, Expr::Var(v) if v == n) {
+                count += 1;
+            }
+        });
+        if count == 1 && !bound.contains(n) {
+            let w = wit_name_for(n);
+            crate::mutate::walk_expr(&mut out, &mut |x| {
+                if matches!(x, Expr::Var(v) if v == n) {
+                    *x = Expr::Witness(w.clone());
+                }
+            });
+            inlined += 1;
+        } else {
+            rest.push((n.clone(), t.clone()));
+        }
+    }
+    (out, rest, inlined)
+}
+
 // =============================================================================================
 // free variables / used functions
 
